@@ -64,9 +64,12 @@ type c02Cycle struct {
 	Order    []int `json:"release_order"`
 	Hosts    int   `json:"hosts"`
 	Conns    int   `json:"conns"`
-	Exhaust  bool  `json:"exhaust"`                   // hold more than 2048 requests on one backend connection
-	Overflow int   `json:"overflow,omitempty"`        // how many beyond the limit
-	LateHB   bool  `json:"late_heartbeats,omitempty"` // heartbeat replies time out and arrive late, while every stream id is in use
+	Exhaust  bool  `json:"exhaust"`            // hold more than 2048 requests on one backend connection
+	Overflow int   `json:"overflow,omitempty"` // how many beyond the limit
+	// Refused (exhaust only): while every stream id of the only backend connection is held, one more client sends this many
+	// further requests; none of them can be forwarded, each must be answered with the proxy's own error
+	Refused int  `json:"refused_while_exhausted,omitempty"`
+	LateHB  bool `json:"late_heartbeats,omitempty"` // heartbeat replies time out and arrive late, while every stream id is in use
 }
 
 func c02Query(v primitive.ProtocolVersion, stream int16, token string, comp string) []byte {
@@ -199,6 +202,38 @@ func c02CycleCheck(c c02Cycle) *evid.Fail {
 			return evid.Failf("no-reply:held", "%d requests sent, backend holds %d, clients got %d replies", total, nh, answered)
 		}
 		time.Sleep(time.Millisecond)
+	}
+	if c.Exhaust && c.Refused > 0 && c.Hosts*c.Conns == 1 && len(e.Cluster.HeldTokens()) >= 2048 {
+		xc, err := e.client(4, "")
+		if err != nil {
+			return evid.Failf("harness-client", "%v", err)
+		}
+		for sent := 0; sent < c.Refused; {
+			n := min(500, c.Refused-sent)
+			from := xc.NumFrames()
+			var buf []byte
+			for j := 0; j < n; j++ {
+				buf = append(buf, c02Query(4, int16(j), nextToken(), "")...)
+			}
+			if err := xc.Send(buf); err != nil {
+				return evid.Failf("harness-send", "%v", err)
+			}
+			if !xc.WaitN(from+n, posWait) {
+				if stalled(posWait) {
+					return evid.Failf("harness-stall", "stalled")
+				}
+				return evid.Failf("no-reply:refused", "%d of %d requests sent while every backend stream id was in use were answered (after %d earlier ones)", xc.NumFrames()-from, n, sent)
+			}
+			for _, r := range xc.Frames()[from:] {
+				if ri := decode(xc, r); !ri.IsError || strings.Contains(ri.Text, "tok=") {
+					return evid.Failf("forwarded-beyond-stream-limit", "request %d sent while all 2048 stream ids of the only backend connection were in use was answered with %v: it was forwarded on a stream id that is still in flight", sent, ri)
+				}
+			}
+			sent += n
+		}
+		if nh := len(e.Cluster.HeldTokens()); nh < 2048 {
+			return evid.Failf("held-lost", "only %d of 2048 held requests are still parked after %d refused requests", nh, c.Refused)
+		}
 	}
 	// release in the generated order (indices into the held list, modulo), then everything else
 	if c.LateHB {
@@ -520,7 +555,8 @@ func TestC02(t *testing.T) {
 		c := c02Cycle{Warm: rapid.IntRange(0, 300).Draw(rt, "warm"), Clients: clients, Held: (2048+over)/clients + 1, Hosts: 1, Conns: 1, Exhaust: true, Overflow: over,
 			Order: rapid.SliceOfN(rapid.IntRange(0, 5000), 0, 100).Draw(rt, "order")}
 		c.LateHB = rapid.Bool().Draw(rt, "latehb")
-		rec.Case("exhaust:"+js(c), "stream-exhaustion", map[bool]string{true: "late-heartbeats", false: ""}[c.LateHB])
+		c.Refused = rapid.SampledFrom([]int{0, 0, 700, 66000, 132000}).Draw(rt, "refused") // 2^16 and 2^17 draws on the stream-id allocator
+		rec.Case("exhaust:"+js(c), "stream-exhaustion", map[bool]string{true: "late-heartbeats", false: ""}[c.LateHB], fmt.Sprintf("refused-while-exhausted:%d", c.Refused))
 		rec.ExtraAdd("requests_sent", int64(c.Warm+c.Clients*c.Held))
 		return c
 	}, c02CycleCheck)
